@@ -40,10 +40,14 @@ Universe == [wallets |-> Wallets, txins |-> TxIns, txouts |-> TxOuts,
 ASSUME PrintT(<<"UNIV", ToJson(Universe)>>)
 
 \* pending transactions that can never confirm because a coin of a STRANGER that they (or a pending
-\* ancestor) spend is spent on the wallet's chain by another transaction: the follower looks for conflicts
+\* ancestor) spend is spent on the wallet's chain by another transaction, or no longer exists on it (the
+\* block that created it was reorganised away): the follower looks for conflicts
 \* only among wallet-owned inputs of the transactions it finds relevant, so it never notices (K-C09-2)
 StrangerDead(p, cc) ==
-    LET dead0 == {t \in p : \E op \in TxIns[t] : OutOf(op).owner \notin Wallets /\ op \in SpentOn(cc)}
+    LET dead0 == {t \in p : \E op \in TxIns[t] :
+                        /\ OutOf(op).owner \notin Wallets
+                        /\ \/ op \in SpentOn(cc)                           \* spent by someone else's transaction
+                           \/ (op \notin CreatedOn(cc) /\ op[1] \notin p)}   \* or its block was reorganised away
         RECURSIVE Close(_)
         Close(D) == LET more == {u \in p \ D : \E op \in TxIns[u] : op[1] \in D}
                     IN IF more = {} THEN D ELSE Close(D \cup more)
